@@ -43,17 +43,29 @@ func (fp *filesystemCachePersistor) getFilename(key string) string {
 
 func (fp *filesystemCachePersistor) Store(key string, reader io.Reader) (int64, error) {
 	filename := fp.getFilename(key)
-	var written int64
-	{
-		f, err := os.OpenFile(filename, os.O_CREATE|os.O_TRUNC|os.O_WRONLY, 0o600)
-		if err != nil {
-			return 0, err
-		}
-		defer f.Close()
-		written, err = io.Copy(f, reader)
-		if err != nil {
-			return written, err
-		}
+	// Stream into a temp file and publish it with a rename: Store runs outside
+	// the cache's mutex, so writing the final file in place would let a
+	// concurrent Get read a prefix of the value and let two overlapping Stores
+	// interleave their bytes. (The temp name does not end in ".cache", so
+	// RemoveAll's glob never sees a half-written file as an entry.)
+	tempFile, err := os.CreateTemp(fp.root, filepath.Base(filename)+".*.tmp")
+	if err != nil {
+		return 0, err
+	}
+	tempName := tempFile.Name()
+	written, err := io.Copy(tempFile, reader)
+	if err != nil {
+		_ = tempFile.Close()
+		_ = os.Remove(tempName)
+		return written, err
+	}
+	if err := tempFile.Close(); err != nil {
+		_ = os.Remove(tempName)
+		return written, err
+	}
+	if err := os.Rename(tempName, filename); err != nil {
+		_ = os.Remove(tempName)
+		return written, err
 	}
 	return written, nil
 }
